@@ -262,8 +262,6 @@ func (h *SexpHash) TypeCheckField(key Sexp, val Sexp) error {
 	case *SexpSymbol:
 		keySym = ks
 		wasSym = true
-	default:
-		return KeyNotSymbol
 	}
 	p := h.GoStructFactory
 	if p == nil {
@@ -301,6 +299,14 @@ func (h *SexpHash) TypeCheckField(key Sexp, val Sexp) error {
 
 	// type-check record updates here, if we are a record with a
 	// registered type associated.
+	if !wasSym {
+		if h.TypeName != "hash" && h.TypeName != "field" && p != nil && p.UserStructDefn != nil {
+			// the fields of a declared struct are named by symbols; any
+			// other key would be a member that the declaration does not have.
+			return fmt.Errorf("%s has no field '%s' [err 2]", p.UserStructDefn.Name, key.SexpString(nil))
+		}
+		return KeyNotSymbol
+	}
 	if wasSym && h.TypeName != "hash" && h.TypeName != "field" && p != nil {
 		k := keySym.name
 		//Q("is key '%s' defined?", k)
